@@ -51,7 +51,7 @@ func migrateSupplierExtPostCodeToInvoice(inv *bill.Invoice) {
 		ext[extKeyIssuePlace] = inv.Supplier.Ext[extKeyPostCode]
 	} else if len(inv.Supplier.Addresses) > 0 {
 		addr := inv.Supplier.Addresses[0]
-		if addr.Code != "" {
+		if addr != nil && addr.Code != "" {
 			ext[extKeyIssuePlace] = addr.Code
 		}
 	}
@@ -68,6 +68,9 @@ func migrateCustomerExtPostCodeToAddress(inv *bill.Invoice) {
 	if inv.Customer != nil && inv.Customer.Ext.Has(extKeyPostCode) {
 		if len(inv.Customer.Addresses) == 0 {
 			inv.Customer.Addresses = []*org.Address{{}}
+		}
+		if inv.Customer.Addresses[0] == nil {
+			inv.Customer.Addresses[0] = new(org.Address)
 		}
 		inv.Customer.Addresses[0].Code = inv.Customer.Ext[extKeyPostCode]
 	}
